@@ -1,6 +1,8 @@
 import P2PVerif.Model.KeWorld
 import P2PVerif.Lemmas.Replay
 import P2PVerif.Lemmas.KeAuth
+import P2PVerif.Lemmas.SrcReplay
+import P2PVerif.Lemmas.SrcKe
 /-! # C02 — secure channel delivers only authentic peer plaintexts, at most once
 Property theorems only; same adversary as C03. `W.apps` logs every application delivery (session, accepted wire
 term, plaintext), `W.sends` every honest `Send` (session, emitted term, plaintext). -/
@@ -51,5 +53,37 @@ theorem no_plaintext_on_wire (hk : KeyId → Bool) (W : World) (hr : Reach hk W)
       | .data eI eR _ _ _ _ => advEph eI = false ∨ advEph eR = false
       | _ => False :=
   P2PKE.no_plaintext_on_wire hk W hr
+
+/-! ### about the definitions regenerated from the Go source (`Gen/Src.lean`) -/
+section Src
+open P2PVerif.Src P2PVerif.Go
+
+/-- ⊢ (source) `replay.Filter.ValidateCounter` — the window every session checks inbound counters against, translated
+    from the source of the wireguard module the repository builds with — IS the model `Replay.validate`: from related
+    states it never faults, returns the model's verdict and leaves a related state, for every counter and limit
+    (all 64-bit values, including the wrap-around arithmetic of the block indices). -/
+theorem src_replay_is_model (f : replay.FilterT) (m : Replay.Filter) (h : SrcReplay.frel f m) (counter limit : UInt64) :
+    ∃ ok f', replay.Filter.ValidateCounter f counter limit = .ok (ok, f') ∧
+      SrcReplay.frel f' (Replay.validate m counter.toNat limit.toNat).1 ∧
+      ok = (Replay.validate m counter.toNat limit.toNat).2 :=
+  SrcReplay.ValidateCounter_model f m h counter limit
+
+/-- ⊢ (source) so the real filter, started from its zero value, accepts no counter twice — every sequence of 64-bit
+    counters of any length, every limit. -/
+theorem src_replay_at_most_once (limit : UInt64) (cs : List UInt64) :
+    ∃ f' acc, SrcReplay.srcRun SrcReplay.zeroFilter limit cs = .ok (f', acc) ∧ acc.Nodup :=
+  SrcReplay.src_accepts_at_most_once limit cs
+
+/-- ⊢ (source) the 4-byte header `newMessage` writes is the counter `GetNonce` reads back, and `Body` returns what
+    follows it: the counter on the wire is the AEAD counter of that message. -/
+theorem src_header_counter_roundtrip (n : UInt32) (body : Go.Bytes) :
+    (p2pke.newMessage n >>= fun h => p2pke.Message.GetNonce (h ++ body)) = .ok n ∧
+    (p2pke.newMessage n >>= fun h => p2pke.Message.Body (h ++ body)) = .ok body := by
+  rw [SrcKe.newMessage_eq]
+  exact ⟨SrcKe.getNonce_new n body, SrcKe.body_new n body⟩
+
+-- non-vacuity: the zero filter is related to the model's empty filter
+example : SrcReplay.frel SrcReplay.zeroFilter Replay.Filter.empty := SrcReplay.zero_rel
+end Src
 
 end P2PVerif.C02
